@@ -31,3 +31,11 @@ theorem exact_dummy : Exact .dummy := by
   · simp [getI, getDom, List.getD, hk]
 
 end Nucs
+
+namespace Nucs
+/-- dummy watches MIN|MAX everywhere: a quiet sub-box is the input box itself -/
+theorem trigOk_dummy : TrigOk .dummy := by
+  intro ps B st B' B'' _ _ hrun _ hle hne'' _
+  simp only [runAlg] at hrun ⊢
+  exact ⟨.cons, rfl, by decide⟩
+end Nucs
